@@ -24,32 +24,32 @@ CHECKS = {
  'C02': dict(engine='threadsim', category='exploration', design_ref='4.2',
    technique='deterministic simulation, sequential (no pre-emption) configuration of the threadsim cache harness: seeded operation histories checked step by step against an executable reference cache, destructive eviction-order probe, ddmin replay',
    text='Seeded histories of 1-40 dict-API operations (including |=, copy, ==, re-entrant on_miss callbacks, equal-but-differently-typed keys) on LRI and LRU with small max_size; after every step outcome, contents, len, the three counters and the on_miss call log are compared with the reference cache of models/lru_model.py, the eviction order is probed through the public API at the end and after three seeded prefixes. No fault or schedule dimension exists in this property (faults_fired is empty): it is claimed as the fault-free baseline and oracle validation of the C03 simulation. Sampling, not proof.',
-   note='Trusts the reference model as the reading of C02 (popitem may return any present pair; update/|= = sequence of assignments; copy = .copy()). Found and fixed three defects (known_findings.json C02-F1..F3); 14 seeded mutants detected in the quick tier.'),
+   note='Trusts the reference model as the reading of C02 (popitem may return any present pair; update/|= = sequence of assignments; copy = .copy()). Found and fixed three defects (known_findings.json C02-F1..F3). Sensitivity: 15 hand-written mutants and 7 sub-agent changes (seeded/C02-S*) detected, 6 property-preserving redesigns (OrderedDict ring, decorator locking, ...) left quiet.'),
  'C03': dict(engine='threadsim', category='exploration', design_ref='4.1',
    technique='deterministic simulation of threads: baton-passing real threads pre-empted at every bytecode of cacheutils (sys.monitoring INSTRUCTION events) and at every lock operation, seeded random/PCT/pre-emption-bounded schedules plus a single-pre-emption sweep, linearizability check against a reference cache, schedule re-search + ddmin replay',
    text='2-4 logical threads run seeded programs on one shared LRI/LRU whose lock is a simulated RLock; the simulator alone decides which thread runs at each of ~10^2-10^3 pre-emption points per run. The recorded history (invoke/return stamps from the global step counter, outcomes, probed final contents and eviction order) must be linearizable against models/lru_model.py; impossible exceptions, capacity overflow, deadlock, livelock (step cap) and an unusable cache afterwards are violations too. Floor on every invocation: for every ordered pair of 17 operations, both classes, thread A pre-empted once at each of its yield points with thread B run in between (about 67k schedules). Sampling of schedules, not proof.',
-   note='Assumes the GIL (C-level dict operations on int/str/tuple keys atomic); counters are outside the concurrent specification; known finding C03-F1 (lock-free inherited readers see a prefix of one in-flight operation) is classified by an executable relaxed oracle and reported as KNOWN-FINDING, everything else is strict. 14 seeded mutants (each lock removed, narrowed critical section, non re-entrant lock, per-call lock) detected in the quick tier.'),
+   note='Assumes the GIL (C-level dict operations on int/str/tuple keys atomic); counters are outside the concurrent specification; known finding C03-F1 (lock-free inherited readers see a prefix of one in-flight operation) is classified by an executable relaxed oracle and reported as KNOWN-FINDING, everything else is strict. Oracle unit-tested on 15 hand-written histories (--selftest). Sensitivity: 14 hand-written mutants and 12 sub-agent changes (seeded/C03-S*: unlocked pre-checks, lock swapped by clear(), lazy lock creation, lock-free fast paths, batching, lock leaks ...) detected; 8 property-preserving redesigns left quiet.'),
  'C04': dict(engine='simfs', category='fault_enumeration', design_ref='4.3',
    technique='deterministic simulation with crash injection: in-memory POSIX file system with durability journal under the real AtomicSaver and CPython buffered/text file objects; every crash point of every workload enumerated; process-death and power-loss images judged; ordering oracle on the event log',
    text='For each workload (80 fixed + seeded: text/binary, overwrite, part_file, buffering, buffer size, umask, relative path, destination absent/present, body of write/flush calls) the fault-free run is recorded and the workload is re-executed with the machine stopped immediately before every seam event and after the last. Each snapshot is judged under process death (kernel view) and under power loss (every metadata-journal prefix at or after the last fsync x {no un-synced data, all of it, a seeded subset with a torn tail}): the destination must read exactly the old or exactly the complete new content. Independently the event log must show that a name is bound to the part file only when its kernel data is complete and fsynced, never written afterwards, and that the destination is rebound in exactly one call. Exhaustive over crash points per workload, seeded over workloads.',
-   note='Trusts the simfs model of POSIX rename/link/open(O_EXCL) and its power-loss model (metadata durable in issue order, data durable up to last fsync, later writes any subset/torn). Directory fsync is not required. 9 seeded mutants (fsync/flush dropped or reordered, rename before flush, writing the destination directly, unlink+rename, copy instead of link) detected in the quick tier; closing after the rename is correctly not flagged.'),
+   note='Trusts the simfs model of POSIX rename/link/open(O_EXCL) and its power-loss model (metadata durable in issue order, data durable up to last fsync, later writes any subset/torn). Directory fsync is not required. Also enumerated: crash points inside FAILING saves (sampled single faults), saves that start from the crash image of an earlier save, re-used saver objects, a file system without hard links, symlink destinations. simfs is cross-checked against the real kernel in --selftest (about 270 fault-free saves, about 140 forked crash points). Sensitivity: 11 hand-written mutants and 8 sub-agent changes (seeded/C04-S*) detected; benign variants (close after rename, os.replace, directory fsync, replacing the target of a symlink, skip-if-unchanged) left quiet.'),
  'C05': dict(engine='simfs', category='fault_enumeration', design_ref='4.4',
    technique='deterministic simulation with fault injection: errno / short-write / disk-full / second-party faults injected at every applicable seam event of every workload (single faults enumerated, pairs sampled), judged by a post-state oracle incl. an immediate retry',
    text='For each workload (64 fixed + seeded over overwrite, overwrite_part, rm_part_on_exc, text_mode, file_perms, umask, buffering, initial destination and part file, raising bodies) every fault of the alphabet (open EACCES/ENOSPC/EMFILE/EROFS, chmod EPERM, raw write ENOSPC/EIO/EDQUOT/short/persistent disk-full, fsync EIO/ENOSPC, close EIO, rename EACCES/EPERM/ENOSPC/EIO, link EPERM/EMLINK, clean-up unlink EACCES/EIO as a second fault, another process creating the destination or the part file) is injected at every event it applies to; afterwards: destination bytes and mode unchanged unless published, an exception reached the caller, no part file of ours is left with rm_part_on_exc, an immediate fault-free retry succeeds unless legitimately refused, a pre-existing part file is untouched without overwrite_part, completed saves have the specified permissions.',
-   note='Fault alphabet = the steps C05 names; stat/lexists/fcntl/fdopen are not faulted. Narrow relaxations tied to the injected fault (clean-up unlink itself faulted; failure after publication on the link path). Found and fixed C05-F1 (known_findings.json); 12 seeded mutants detected in the quick tier, removing the part file although rm_part_on_exc=False is correctly not flagged.'),
+   note='Fault alphabet = the steps C05 names; stat/lexists/fcntl/fdopen are not faulted. Narrow relaxations tied to the injected fault (clean-up unlink itself faulted; failure after publication on the link path). Found and fixed C05-F1 (known_findings.json). Extra dimensions: re-used saver objects, earlier saves under another umask, bodies raising Exception / BaseException / falsy exceptions, symlink destination and part file, persistent no-hard-link file system. Sensitivity: 18 hand-written mutants and 11 sub-agent changes (seeded/C05-S*) detected; 8 property-preserving redesigns (ExitStack, fchmod, guard context manager ...) left quiet.'),
  'C12': dict(engine='simnet', category='exploration', design_ref='4.5',
    technique='deterministic simulation: scripted stream socket + discrete-event clock, seeded delivery/timeout/partial-send schedules, reference stream model, ddmin replay',
    text='Seeded search over byte streams, their composition into deliveries, timeout placements, kernel recv/send split scripts, recvsize/maxsize settings and call programs, executed against the real BufferedSocket/NetstringSocket over a simulated socket and clock; after every call (including every call that raised) the result is compared with an independent whole-stream model and byte conservation (returned + buffered + undelivered == stream; peer + kernel + send buffer == handed over) is checked; bounded liveness after faults stop. A fixed floor enumerates every composition of four short delimiter-rich streams. Sampling, not proof.',
-   note='Trusts the SimSocket contract (never more than asked, b"" only after close, EWOULDBLOCK at timeout 0, send accepts 1..n bytes), sizes >= 1, and the reference model in checks/c12.py; 16 seeded mutants of socketutils are detected in the quick tier (DESIGN 4.5).'),
+   note='Trusts the SimSocket contract (never more than asked, b"" only after close, EWOULDBLOCK at timeout 0, send accepts 1..n bytes), sizes >= 1, and the reference model in checks/c12.py; Fault kinds also include transient socket errors, cancellation (BaseException inside recv/send; found and fixed C12-F1), per-call timeout overrides, abandoned calls, slow callers, netstring writer timeouts, bytes-like arguments, scale (64 KiB streams, 16 KiB+ netstrings). Sensitivity: 22 hand-written mutants and 12 sub-agent changes (seeded/C12-S*) detected; 6 property-preserving redesigns (bytearray buffer, deadline helper, memoryview send ...) left quiet.'),
 
  'C15': dict(engine='simrand', category='exploration', design_ref='4.7',
    technique='deterministic simulation of the PRNG seam: iterutils.random replaced by a scripted source (extreme, tiny and seeded draws), seeded parameter search, exact-rational jitter bounds against a reference loop',
    text='Thin claim. The jitter clause quantifies over draws of the global PRNG; the simulator owns that source and presents 0.0 and 1-2**-53 next to ordinary draws. The other clauses (first value, growth, cap, monotonicity, length, default count reaching stop, ValueError before the first value, list form == generator form) are checked on the same seeded parameter sets biased to exact powers, their floating-point neighbours, start=0 and stop<1; they do not depend on any seam and the evidence labels them as configuration sampling.',
-   note='Growth is compared with a 1e-12 relative tolerance, everything else exactly; factor == 1 only with an explicit count. Found and fixed C15-F1 and C15-F2 (known_findings.json); 9 seeded mutants detected, an inclusive-bound mutant correctly not flagged.'),
+   note='Growth is compared with a 1e-12 relative tolerance, everything else exactly; factor == 1 only with an explicit count. Found and fixed C15-F1 and C15-F2 (known_findings.json). Sensitivity: 9 hand-written mutants and 4 sub-agent changes (seeded/C15-S*) detected; an inclusive-bound mutant, random.uniform and two deep restructurings left quiet.'),
  'C18': dict(engine='simfs', category='exploration', design_ref='4.6',
    technique='deterministic simulation of the rollover/write-back seam: replicas of one seeded history run in lock-step over simulated temporary files (seeded max_size, scheduler-injected rollover()/fileno(), seeded write-back size, READ_CHUNK_SIZE knob) against the io.BytesIO/io.StringIO reference',
    text='Thin claim. The instant at which a spooled object moves to a temporary file and how much of that file sits in a user-space buffer when os.fstat or a later read looks at it are not caller-visible; the simulator owns both (ioutils.TemporaryFile and ioutils.os are rebound to simfs). Each history of appending writes, reads, line reads, iteration, seeks, tell, getvalue and len is applied to up to four replicas and the io reference; every return value and tell() must agree at every step, content and position at the end. MultiFileReader: seeded partitions of a content into io/spooled/rolled members, mixes of read(n)/read()/seek(0) against the concatenation. No faults are injected (none are in C18).',
-   note='write() return values are compared between replicas only. Found and fixed C18-F1..F4 (known_findings.json); 11 seeded mutants detected, two benign ones (>= vs > rollover threshold, readline(0)) correctly not flagged.'),
+   note='write() return values are compared between replicas only. Found and fixed C18-F1..F4 (+ follow-up C18-F1b) (known_findings.json). Operations also include writelines (list/tuple/generator), relative seeks, member files handed over at non-zero positions, > READ_CHUNK_SIZE data, thousands of members. Sensitivity: 13 hand-written mutants and 10 sub-agent changes (seeded/C18-S*) detected; 6 property-preserving redesigns left quiet; rollover is observed at the TemporaryFile seam, not through private attributes.'),
 }
 PENDING = {}
 
@@ -83,7 +83,7 @@ def main():
      ],
      'checks': checks,
      'not_applicable': na,
-     'notes': 'Technique family: deterministic simulation with fault injection. 7 properties are claimed, 13 are not applicable (DESIGN.md sections 0 and 5). Exit codes: 0 held, 1 VIOLATION (with replay file), 2 harness error (never prints VIOLATION).',
+     'notes': 'Technique family: deterministic simulation with fault injection. 7 properties are claimed, 13 are not applicable (DESIGN.md sections 0 and 5). Exit codes: 0 held (open known findings printed as KNOWN-FINDING), 1 VIOLATION (with replay file), 2 harness error (never prints VIOLATION). 14 fix: commits in /repo repair the genuine defects the checks found (known_findings.json); one open finding, C03-F1. Regression suites: tools/mutants_all.sh, tools/seeded_all.sh (64 sub-agent breaking changes), tools/benign_all.sh (22 property-preserving refactors), tools/soak.sh.',
     }
     with open(os.path.join(HERE, 'MANIFEST.json'), 'w') as fh:
         json.dump(man, fh, indent=1)
